@@ -11,6 +11,7 @@ import (
 func init() {
 	vRegister("HarnessC17_required", HarnessC17_required)
 	vRegister("HarnessC17_layers", HarnessC17_layers)
+	vRegister("HarnessC17_nested", HarnessC17_nested)
 }
 
 var keysAB = []string{"a", "b"}
@@ -172,4 +173,28 @@ func HarnessC17_layers() {
 	docs := p.Documents()
 	vAssert("C17.onedoc", len(docs) == 1)
 	c17Check(docs[0].Data, ".layered")
+}
+
+// HarnessC17_nested: a chain of four nested containers, each a map or a list
+// (so also lists directly inside lists), with marker / non-marker leaves
+// beside the chain and at its end.
+func HarnessC17_nested() {
+	leaf := func() any {
+		if ndChoice(2) == 0 {
+			return "$required"
+		}
+		return "s1"
+	}
+	var build func(level int) any
+	build = func(level int) any {
+		if level == 4 {
+			return leaf()
+		}
+		if ndChoice(2) == 0 {
+			return map[string]any{"a": build(level + 1), "b": leaf()}
+		}
+		return []any{build(level + 1), leaf()}
+	}
+	root := map[string]any{"r": build(1), "k": leaf()}
+	c17Check(root, ".nested")
 }
